@@ -84,11 +84,17 @@ Definition nleftovers (r : nbody) : list diag :=
 Definition ncontent (s : schema) (b : nbody) : content V * list diag :=
   let '(c, r, d) := npartial s b in (c, d ++ nleftovers r).
 
-(* func (b *Body) JustAttributes: one error if there is ANY block (hidden or
-   not), attributes that are not hidden are returned regardless *)
+Definition vis_attrs (b : nbody) : list (attr V) :=
+  filter (fun a => negb (mem (aname a) (nhA b))) (nattrs b).
+Definition vis_blocks (b : nbody) : list (block V) :=
+  filter (fun bl => negb (mem (btype bl) (nhB b))) (nblocks b).
+
+(* func (b *Body) JustAttributes: one error for the first block whose type is
+   not hidden (structure.go:252-268: hidden block types are skipped, then
+   break); attributes that are not hidden are returned regardless *)
 Definition njust_attrs (b : nbody) : list (attr V) * list diag :=
-  (filter (fun a => negb (mem (aname a) (nhA b))) (nattrs b),
-   match nblocks b with
+  (vis_attrs b,
+   match vis_blocks b with
    | [] => []
    | ex :: _ => [(UnexpectedBlock, btype ex)]
    end).
@@ -100,11 +106,6 @@ Definition item_of_attr (a : attr V) : item V :=
 Definition item_of_block (bl : block V) : item V :=
   {| iname := btype bl; iattr := None; iblock := Some (block_under bl);
      ireport := [(UnsupportedBlock, btype bl)] |}.
-
-Definition vis_attrs (b : nbody) : list (attr V) :=
-  filter (fun a => negb (mem (aname a) (nhA b))) (nattrs b).
-Definition vis_blocks (b : nbody) : list (block V) :=
-  filter (fun bl => negb (mem (btype bl) (nhB b))) (nblocks b).
 
 Definition nitems (b : nbody) : list (item V) :=
   map item_of_attr (vis_attrs b) ++ map item_of_block (vis_blocks b).
